@@ -66,6 +66,18 @@ def gen(rnd):
         lines.append("install_man('man/tool.1', 'man/conf.5')")
         exp.append((P + '/share/man/man1/tool.1', 'file', 0o644, 'man', ''))
         exp.append((P + '/share/man/man5/conf.5', 'file', 0o644, 'man', ''))
+        if rnd.random() < 0.6:
+            # translated pages (reference manual: installed under <mandir>/<locale>/man<N>/, and "foo.fr.1" is installed as "foo.1"):
+            # only the locale component in front of the section goes, whatever else the name contains
+            loc = rnd.choice(['fr', 'de'])
+            names = [f'tool.{loc}.1', f'my.{loc}ontend.{loc}.1'] if loc == 'fr' else [f'tool.{loc}.1', f'a.{loc}mo.{loc}.5']
+            for nm in names:
+                add_file('man/' + nm)
+            lines.append('install_man(' + ', '.join(q('man/' + nm) for nm in names) + f', locale: {q(loc)})')
+            for nm in names:
+                sec = nm.rsplit('.', 1)[1]
+                base = nm[:-len(f'.{loc}.{sec}')] + '.' + sec
+                exp.append((P + f'/share/man/{loc}/man{sec}/{base}', 'file', 0o644, 'man', ''))
     # subdir
     if rnd.random() < 0.8:
         tree = ['top.txt', 'keep/k.txt', 'keep/deep/d e.txt', 'skipdir/s.txt', 'skip.me', 'x/ü.txt']
@@ -268,7 +280,7 @@ def run(REG, tier, seed, jobs):
     seeds = [seed * 32452843 + i for i in range(n)]
     ev, nt, fails = pmap(_inst_chunk, chunked(iter(seeds), 2), jobs)
     return {'parts': [{'name': 'C11/bounded/real-meson-install-runs', 'function': 'meson install --no-rebuild --destdir (real copy / chmod / symlink / log)',
-                       'bound': f'{n} generated projects (install_data with relative and absolute dirs, modes and tags; headers; man pages; install_subdir with excludes, strip_directory and symbolic links pointing out of and into the tree; emptydir (also one whose directory another rule creates first); symlink; a subproject; names with blanks and non-ASCII; 3 prefixes) x 5 selections (all, --tags, --skip-subprojects, both in two ways) + reinstall, uninstall by the log, --dry-run',
+                       'bound': f'{n} generated projects (install_data with relative and absolute dirs, modes and tags; headers; man pages (also translated ones, whose locale component is dropped from the installed name); install_subdir with excludes, strip_directory and symbolic links pointing out of and into the tree; emptydir (also one whose directory another rule creates first); symlink; a subproject; names with blanks and non-ASCII; 3 prefixes) x 5 selections (all, --tags, --skip-subprojects, both in two ways) + reinstall, uninstall by the log, --dry-run',
                        'evaluations': ev, 'distinct_nontrivial': nt, 'rule': 'every installation', 'exhaustive': False, 'failures': fails}]}
 
 
